@@ -15,6 +15,8 @@ def cases(tier, rng):
             ({"k": "m", "x": [[i] for i in ids]}, "ndarray"),  # column slice kept 2-D (trough.wells[:, [0]])
             ({"k": "m", "x": [[i] for i in ids]}, "list"),     # the same table as nested lists (trough.wells.tolist())
             ({"k": "l", "x": ids}, "tuple"),
+            ({"k": "l", "x": ids}, "object"),                  # a column of a mixed table (object dtype holding Python strings)
+            ({"k": "m", "x": [[i] for i in ids]}, "object"),
         ]
         if ln % 2 == 0:
             # 2-D id array with two columns as trough.wells of a two-column trough
